@@ -92,6 +92,9 @@ func VerifyFunc(p *Program, fc *FuncContract, prop string) (u *Unit) {
 	for _, c := range fc.Requires {
 		x.assume(env, sc.EvalBool(c.Expr))
 	}
+	for _, m := range fc.Measure {
+		cx.measure0 = append(cx.measure0, sc.Eval(m))
+	}
 	// vacuity: requires satisfiable
 	o := w.Oblige(x.oblName("cover:requires", ""), "cover", env.pc, False)
 	o.Expect = "sat"
